@@ -71,6 +71,28 @@ pub fn install_panic_hook() {
     }));
 }
 
+/// Tells the clock seam (if the process runs under `clockwarp.so`) that the calling thread
+/// enters / leaves an expansion, so that the seam can count the clock readings the expander makes.
+fn clock_mark(on: bool) {
+    use std::sync::OnceLock;
+    extern "C" {
+        fn dlsym(handle: *mut std::ffi::c_void, symbol: *const std::ffi::c_char) -> *mut std::ffi::c_void;
+    }
+    static MARK: OnceLock<Option<extern "C" fn(i32)>> = OnceLock::new();
+    let f = MARK.get_or_init(|| {
+        // RTLD_DEFAULT: the symbol only exists when the shim is preloaded
+        let p = unsafe { dlsym(std::ptr::null_mut(), b"dexsim_clock_mark\0".as_ptr() as *const std::ffi::c_char) };
+        if p.is_null() {
+            None
+        } else {
+            Some(unsafe { std::mem::transmute::<*mut std::ffi::c_void, extern "C" fn(i32)>(p) })
+        }
+    });
+    if let Some(f) = f {
+        f(on as i32);
+    }
+}
+
 fn is_compile_error_path(p: &syn::Path) -> bool {
     p.segments
         .last()
@@ -125,10 +147,12 @@ pub fn expand_and_observe(req: &Request) -> Obs {
     LAST_PANIC.with(|p| *p.borrow_mut() = None);
     let mode = req.mode;
     IN_EXPANSION.with(|f| f.set(true));
+    clock_mark(true);
     let result = catch_unwind(AssertUnwindSafe(move || match mode {
         Mode::Attr => derive_ex::verif_hooks::expand_attr(attr, item),
         Mode::Derive => derive_ex::verif_hooks::expand_derive(item),
     }));
+    clock_mark(false);
     IN_EXPANSION.with(|f| f.set(false));
     let out = match result {
         Ok(out) => out,
